@@ -37,6 +37,9 @@ var panicSiteTargets = []struct{ file, fn string }{
 	{"pkg/didcomm/protocol/messagepickup/service.go", "handleStatusRequest"},
 	{"component/kmscrypto/doc/jose/jws.go", "parseCompacted"},
 	{"component/kmscrypto/doc/jose/jws.go", "signingInput"},
+	{"component/kmscrypto/doc/jose/decrypter.go", "extractRecipientHeaders"},
+	{"component/models/did/doc.go", "populateServices"},
+	{"pkg/didcomm/protocol/legacyconnection/states.go", "verifySignature"},
 }
 
 func exprText(fset *token.FileSet, n ast.Node) string {
